@@ -103,6 +103,8 @@ class RecSandbox(core.Sandbox):
             ctx.bump("mount_point_d_ino", configured=1, fired=1)
         if any((set(kv) - {"ino", "dev"}) for kv in plan.get("stat", {}).values()):
             ctx.bump("stat_overlay", configured=1)
+        if plan.get("tty"):
+            ctx.bump("stdout_is_terminal", configured=1, fired=1 if any(" isatty " in l for l in res.log) else 0)
         if plan.get("entropy") is not None:
             ctx.bump("hash_seed", configured=1)
         if plan.get("clock") is not None:
